@@ -389,6 +389,45 @@ def runBody (kp : Nat → Bool) : List Node → Nat → St → Option St
     | some τ => runBody kp ns (j + 1) (σ1.graft j τ)
 end
 
+/-! ## the start protocol of a hand-wired flow (`Macro._configure_graph_execution`) -/
+
+/-- how the surviving interface (UI) nodes are put upstream of the creator's starting node -/
+inductive StartWiring
+  | allOf     -- `n << ui_nodes`: the starting node's accumulating trigger waits for ALL UI nodes (the code)
+  | anyOf     -- `ui_node >> n` for every UI node: every UI node triggers the starting node on its own
+  deriving Repr, DecidableEq
+
+/-- how often the creator's starting node — and with it the whole hand-wired chain — is triggered
+in one run of the macro, given the number of surviving UI nodes -/
+def startCount : StartWiring → Nat → Nat
+  | _, 0 => 1                 -- no UI node: the macro runs the starting node itself
+  | .allOf, _ + 1 => 1
+  | .anyOf, k + 1 => k + 1
+
+/-- the hand-wired chain entered `c` times -/
+def iterBody (kp : Nat → Bool) (body : List Node) : Nat → St → Option St
+  | 0, σ => some σ
+  | c + 1, σ =>
+    match runBody kp body 0 σ with
+    | none => none
+    | some σ' => iterBody kp body c σ'
+
+def keptCount (body : List Node) (rets : List Ret) (n : Nat) : Nat :=
+  ((List.range n).filter (kept body rets)).length
+
+/-- a run of a macro whose creator wired the flow by hand: the UI nodes run first (they are the starting
+nodes), then the creator's chain as often as its starting node is triggered -/
+def runWired (w : StartWiring) : Node → St → Option St
+  | .leaf f srcs, σ => run (.leaf f srcs) σ
+  | .mac args body rets oh s, σ =>
+    if anyNd (σ.get .inp) args.length then none
+    else if (List.range args.length).any (fun k => kept body rets k && (σ.get .uiIn k).isNd) then none
+    else
+      match iterBody (kept body rets) body (startCount w (keptCount body rets args.length))
+          (runUI (kept body rets) args.length 0 σ) with
+      | none => none
+      | some σ' => some (pushOuts rets 0 σ')
+
 /-! ## updates below the top level -/
 
 def nodeAt : Node → Path → Option Node
